@@ -210,6 +210,12 @@ pub fn run(ctx: &Ctx) {
         (0..=maxlen).map(|l| SignCase { d: gen::hex32(&(from_be(&expand_bytes(seed0 ^ 0x3d ^ (l as u64 % 4), 32)) % (n - 2u32) + 1u32)), id: l % id_pool().len(), msg_len: l, msg_seed: seed0.wrapping_mul(131) ^ l as u64, k: Some(gen::hex32(&(from_be(&expand_bytes(seed0 ^ 0x3e ^ l as u64, 32)) % (n - 1u32) + 1u32))) }).collect()
     }, check_sign);
 
+    let huge: Vec<usize> = ctx.tier.pick(vec![(1usize << 16) - 1, 1 << 16, (1 << 16) + 3, 100_000], vec![(1usize << 16) - 1, 1 << 16, (1 << 16) + 3, 100_000, (1 << 17) + 40, (1 << 18) + 8, (1 << 20) + 5]);
+    ctx.listed("huge_messages", "messages of 2^16-1, 2^16, 2^16+3, 100000 bytes (thorough: up to 2^20+5), nonce injected: exact signature and both verifications (size thresholds, chunked or parallel hashing)", move || {
+        let n = &r2::params().n;
+        huge.iter().map(|l| SignCase { d: gen::hex32(&(from_be(&expand_bytes(seed0 ^ 0x3f, 32)) % (n - 2u32) + 1u32)), id: *l % id_pool().len(), msg_len: *l, msg_seed: seed0.wrapping_mul(137) ^ *l as u64, k: Some(gen::hex32(&(from_be(&expand_bytes(seed0 ^ 0x40 ^ *l as u64, 32)) % (n - 1u32) + 1u32))) }).collect::<Vec<_>>()
+    }, check_sign);
+
     ctx.generated("library_rng_cross_verify", "proptest (d, id, message), nonce from the library's RNG: range, standard verification equation, library verification", ctx.tier.pick(2_500, 40_000), || {
         sign_case().prop_map(|mut c| { c.k = None; c })
     }, check_sign);
